@@ -12,7 +12,17 @@ import contextlib
 import io
 from collections import Counter
 from . import common
-from .common import TICK, PRIO, to_ticks
+from .common import PRIO
+from .common import TICK as _TICK8, to_ticks as _to_ticks
+
+# ticks per time unit of the scenario being run: 8 by default; a scenario may ask for a finer grid (sc['tick'], e.g. 1024: times that
+# need more than nine decimal digits).  The model counts ticks and never sees the unit.
+CUR = [_TICK8]
+
+
+def to_ticks(x, unit=None):
+    return _to_ticks(x, CUR[0] if unit is None else unit)
+
 
 FAMILY = 6
 NAME = 'floor'
@@ -141,13 +151,13 @@ def decider_fn(code, arg):
         if code == 1:
             return False
         if code == 2:
-            return arg / TICK <= part.quality
+            return arg / CUR[0] <= part.quality
         if code == 3:
-            return part.quality < arg / TICK
+            return part.quality < arg / CUR[0]
         if code == 4:
-            return arg / TICK <= val(part)
+            return arg / CUR[0] <= val(part)
         if code == 5:
-            return val(part) < arg / TICK
+            return val(part) < arg / CUR[0]
         if code == 6:
             return (part.id - f.base) % 2 == 0
         return (part.id - f.base) % 2 == 1
@@ -219,15 +229,15 @@ def build(sc):
             for cb in ops:
                 k = cb[0]
                 if k == 'set_cycle':
-                    device.cycle_time = cb[1] / TICK
+                    device.cycle_time = cb[1] / CUR[0]
                 elif k == 'offset_next':
-                    device.offset_next_cycle_time(cb[1] / TICK)
+                    device.offset_next_cycle_time(cb[1] / CUR[0])
                 elif k == 'part_add_value':
                     if part is not None:
-                        part.add_value('x', cb[1] / TICK)
+                        part.add_value('x', cb[1] / CUR[0])
                 elif k == 'part_set_quality':
                     if part is not None:
-                        part.quality = cb[1] / TICK
+                        part.quality = cb[1] / CUR[0]
                 elif k == 'create_wo':
                     W.maints[cb[1]].create_work_order(W.objs[cb[2]], None if cb[3] == -1 else cb[3])
                 elif k == 'create_wo_if_failure':
@@ -251,33 +261,34 @@ def build(sc):
             fn.base = W.base
             o = DecisionGate(upstream=ups, decider_override=fn)
         elif k == 'handler':
-            o = PartHandler(upstream=ups, cycle_time=e['cycle'] / TICK)
+            o = PartHandler(upstream=ups, cycle_time=e['cycle'] / CUR[0])
         elif k == 'processor':
             req = None
             if e.get('req'):
-                req = {'r%d' % n: a / TICK for n, a in e['req']}
-            o = Proc(upstream=ups, cycle_time=e['cycle'] / TICK, resources_for_processing=req)
-            o._v_dur, o._v_cap, o._v_cost = e.get('wo_dur', 0) / TICK, e.get('wo_cap', 0) / TICK, e.get('wo_cost', 0) / TICK
+                req = {'r%d' % n: a / CUR[0] for n, a in e['req']}
+            o = Proc(upstream=ups, cycle_time=e['cycle'] / CUR[0], resources_for_processing=req)
+            o._v_dur, o._v_cap, o._v_cost = e.get('wo_dur', 0) / CUR[0], e.get('wo_cap', 0) / CUR[0], e.get('wo_cost', 0) / CUR[0]
         elif k == 'buffer':
-            o = Buffer(upstream=ups, minimum_delay=e['min_delay'] / TICK, capacity=e['capacity'])
+            o = Buffer(upstream=ups, minimum_delay=e['min_delay'] / CUR[0], capacity=e['capacity'])
         elif k == 'source':
             n = e.get('gen_batch', 0)
             if e.get('gen_pattern'):
-                gen = PatternGen('p', e['gen_value'] / TICK, e['gen_quality'] / TICK, e['gen_pattern'])
+                gen = PatternGen('p', e['gen_value'] / CUR[0], e['gen_quality'] / CUR[0], e['gen_pattern'])
             elif n > 0:
-                gen = BatchGen('p', e['gen_value'] / TICK, e['gen_quality'] / TICK, n)
+                gen = BatchGen('p', e['gen_value'] / CUR[0], e['gen_quality'] / CUR[0], n)
             else:
-                gen = PartGenerator('p', e['gen_value'] / TICK, e['gen_quality'] / TICK)
-            o = Source(part_generator=gen, cycle_time=e['cycle'] / TICK,
+                gen = PartGenerator('p', e['gen_value'] / CUR[0], e['gen_quality'] / CUR[0])
+            o = Source(part_generator=gen, cycle_time=e['cycle'] / CUR[0],
                        starting_parts=float('inf') if e['budget'] is None else e['budget'])
         elif k == 'sink':
-            o = Sink(upstream=ups, cycle_time=e['cycle'] / TICK, collect_parts=bool(e.get('collect')))
+            o = Sink(upstream=ups, cycle_time=e['cycle'] / CUR[0], collect_parts=bool(e.get('collect')))
         elif k == 'batcher':
             o = PartBatcher(upstream=ups, output_batch_size=e['batch_size'])
         else:
             raise ValueError(k)
         if key is not None:
             W.alias[o.id - W.base] = key
+        del ups[:]      # the caller re-uses its list: the device must have kept its own copy
         for which, adder in (('receive', 'add_receive_part_callback'), ('finish', 'add_finish_processing_callback'),
                              ('shutdown', 'add_shutdown_callback'), ('restore', 'add_restored_callback')):
             ops = e.get('on_' + which)
@@ -301,10 +312,11 @@ def build(sc):
         if k == 'path':
             gp = W.groups[e['gid']].get_new_group_path(None, ups)
             W.objs[nid(gp)] = gp
+            del ups[:]
             continue
         if k == 'maint':
             m = Maintainer(name='maint_%d' % (Asset._id_counter + 1 - W.base),
-                           capacity=float('inf') if e['capacity'] is None else e['capacity'] / TICK, value=e['value'] / TICK)
+                           capacity=float('inf') if e['capacity'] is None else e['capacity'] / CUR[0], value=e['value'] / CUR[0])
             W.maints[nid(m)] = m
             continue
         if e.get('late'):
@@ -313,7 +325,7 @@ def build(sc):
         o = make(e, ups)
         W.objs[nid(o)] = o
     for n, a in sc['pools']:
-        W.rm.add_resources('r%d' % n, a / TICK)
+        W.rm.add_resources('r%d' % n, a / CUR[0])
     return W
 
 
@@ -342,17 +354,19 @@ def run_uop(W, o):
     elif k == 'restore':
         W.objs[o[1]].restore_functionality()
     elif k == 'fail_at':
-        W.objs[o[1]].schedule_failure(o[2] / TICK)
+        W.objs[o[1]].schedule_failure(o[2] / CUR[0])
     elif k == 'block':
         W.objs[o[1]].block_input = bool(o[2])
     elif k == 'adjust':
         W.objs[o[1]].adjust_part_count(o[2])
     elif k == 'offset':
-        W.objs[o[1]].offset_next_cycle_time(o[2] / TICK)
+        W.objs[o[1]].offset_next_cycle_time(o[2] / CUR[0])
     elif k == 'rewire':
-        W.objs[o[1]].set_upstream([W.objs[u] for u in o[2:] if u])
+        lst = [W.objs[u] for u in o[2:] if u]
+        W.objs[o[1]].set_upstream(lst)
+        del lst[:]      # as above
     elif k == 'add_res':
-        W.rm.add_resources('r%d' % o[1], o[2] / TICK)
+        W.rm.add_resources('r%d' % o[1], o[2] / CUR[0])
     elif k == 'create_wo':
         W.maints[o[1]].create_work_order(W.objs[o[2]], None if o[3] == -1 else o[3])
 
@@ -542,6 +556,7 @@ def run_impl(sc, weights='patch', split=False, reduced=False):
     from simprocesd.model.factory_floor import maintainer as mmod
     flat, obs = [-778, 1], []      # the model reports whether the initial world is well-formed (coq/Model/FamFloor.v wf_worldb)
     _trace_home()
+    CUR[0] = sc.get('tick', _TICK8)
     with common.WeightPatch(sc['seed'], sc['mod'], mode=weights):
         orig_rr_init = rmmod.ReservedResources.__init__
         orig_wo_init = mmod._WorkOrder.__init__
@@ -626,14 +641,16 @@ def run_impl(sc, weights='patch', split=False, reduced=False):
                         elif k == 'step':
                             env.step()
                         elif k == 'run':
+                            # through System.simulate (already initialised: it only runs the environment); the event trace is
+                            # on from the first run (C15)
                             if split and x[1] >= 2:
-                                env.run((x[1] // 2) / TICK, trace=True)
-                                env.run((x[1] - x[1] // 2) / TICK, trace=True)
+                                W.system.simulate((x[1] // 2) / CUR[0], trace=True, print_summary=False)
+                                W.system.simulate((x[1] - x[1] // 2) / CUR[0], trace=True, print_summary=False)
                             else:
-                                env.run(x[1] / TICK, trace=True)       # the event trace is on from the first run (C15)
+                                W.system.simulate(x[1] / CUR[0], trace=True, print_summary=False)
                             W.exported = _read_trace_file(env)
                         elif k == 'at':
-                            env.schedule_event(x[1] / TICK, -5, make_user(x[2]), x[3] / PRIO)
+                            env.schedule_event(x[1] / CUR[0], -5, make_user(x[2]), x[3] / PRIO)
                         elif k == 'now':
                             W.uoplog.append(list(x[1]))
                             run_uop(W, x[1])
